@@ -26,7 +26,7 @@ SCOPE = ('per-object encodings on pairs/triples of objects with SYMBOLIC status 
          'per-object encoding of that cell at every position and for every other content, the agent marker is 1 exactly at the agent cell; '
          'state level: changing one component (a cell, the position, the heading, the held item) changes the representation, equal states have equal representations and hashes')
 BOUNDS = {
-    'quick': dict(spaces='7 type sets x 5 colour sets x 3 representations x {state, observation} for the per-object claims; 4 spaces for the whole-state claims',
+    'quick': dict(repeated_entry='a type list that names a type twice', spaces='7 type sets x 5 colour sets x 3 representations x {state, observation} for the per-object claims; 4 spaces for the whole-state claims',
                   shapes='grids 2x2 (2x3 for the basic space); views 1x3 (2x3 for the basic space); on alphabets of more than 8 objects the distinguished cell ranges over every third object in the cell-wise lemma and cell content / pose / held item vary one at a time', pairs='all pairs of objects of a space (symbolic status/colour)'),
     'thorough': dict(spaces='same', shapes='plus 3x3 / 3x5', pairs='same'),
 }
